@@ -82,6 +82,22 @@ def gen_schedule(rng):
             operands.append((full + f", d{pos[extra]}", shape + [loops[extra]]))
         else:
             operands.append((full, list(shape)))
+    # dimensions no schedule loop touches (constant index 0): slices of higher-rank buffers
+    for k in range(3):
+        if rng.random() < 0.25:
+            res, shp = operands[k]
+            parts, shp = [x.strip() for x in _split_top(res)], list(shp)
+            for _ in range(rng.choice([1, 2, 2, 3])):
+                at = rng.randint(0, len(parts))
+                sz = rng.choice([1, 2, 3, 4, 5])
+                tot = sz
+                for x in shp:
+                    tot *= x
+                if tot > 1500:
+                    break
+                parts.insert(at, "0")
+                shp.insert(at, sz)
+            operands[k] = (", ".join(parts), shp)
     space = '"L1"'
     explicit = rng.random() < 0.12
     mts = []
@@ -111,6 +127,23 @@ func.func @f(%a : {mts[0]}, %b : {mts[1]}, %c : {mts[2]}) {{
 }}
 """
     return text, {"acc": acc, "ty": ty, "explicit": explicit, "shapes": [s for _, s in operands]}
+
+
+def _split_top(res):
+    """split a comma separated list of affine result expressions at the top level"""
+    out, depth, cur = [], 0, ""
+    for ch in res:
+        if ch == "(":
+            depth += 1
+        elif ch == ")":
+            depth -= 1
+        if ch == "," and depth == 0:
+            out.append(cur)
+            cur = ""
+        else:
+            cur += ch
+    out.append(cur)
+    return out
 
 
 def _rowmajor(shape):
